@@ -52,8 +52,16 @@ def obs_db(path, dbfn, cl):
         db.conn.close()
         db2 = gffutils.FeatureDB(dbfn)
         d2 = A.proj_dialect(db2.dialect)
+        # the database keeps reporting the dialect of the input it was created from: after an update with hand-made Feature objects
+        # (which carry the library's default dialect and other attribute keys) and another close / reopen
+        from gffutils.feature import Feature
+        db2.update([Feature(seqid="zz", source="s", featuretype="region", start=1, end=2, strand="+", attributes={"later_key": ["v"], "other": ["w"]})],
+                   make_backup=False, merge_strategy="create_unique", id_spec=lambda f: "autoincrement:y")
         db2.conn.close()
-    return d1, d2, ids
+        db3 = gffutils.FeatureDB(dbfn)
+        d3 = A.proj_dialect(db3.dialect)
+        db3.conn.close()
+    return d1, d2 if d3 == d2 else {"after_update_and_reopen": d3}, ids
 
 
 def run_case(args):
@@ -81,7 +89,7 @@ def run_case(args):
             if d1 != c["exp"]:
                 out["fails"].append(("create_db_dialect", d1))
             if d2 != c["exp"]:
-                out["fails"].append(("reopened_dialect", d2))
+                out["fails"].append(("reopened_dialect" if "after_update_and_reopen" not in d2 else "dialect_after_update_and_reopen", d2))
             if marker:
                 derived = "gene" in ids and "transcript" in ids
                 if derived != (c["imp"] == "gtf"):
